@@ -67,7 +67,6 @@ def codec(
     )
 
 
-@compat.cache
 def carried_verbatim(t: t.Any) -> bool:
     """Whether `t` is a bytes-like type: such values are already encoded.
 
@@ -87,6 +86,7 @@ def carried_verbatim(t: t.Any) -> bool:
     return inspection.isbytestype(t)
 
 
+@compat.cache
 def _codec(
     t: type[T],
     *,
